@@ -5,6 +5,7 @@ import (
 	"fmt"
 	"go/token"
 	"go/types"
+	"math"
 	"strings"
 
 	"golang.org/x/tools/go/ssa"
@@ -78,6 +79,42 @@ func (p *Path) intrinsic(caller *frame, fn *ssa.Function, name string, args []Va
 		return intConst(int64(p.exitCode)), true
 	case "(*os/exec.ExitError).ExitCode":
 		return intConst(int64(p.exitCode)), true
+	case "math.Inf":
+		if sign, ok := asInt(args[0]); ok {
+			if sign >= 0 {
+				return smt.ConstFP(math.Inf(1)), true
+			}
+			return smt.ConstFP(math.Inf(-1)), true
+		}
+	case "math.NaN":
+		return smt.ConstFP(math.NaN()), true
+	case "math.IsNaN":
+		if f, ok := args[0].(*smt.Term); ok && f.Sort.K == smt.SFP {
+			return smt.FPIsNaN(f), true
+		}
+	case "math.IsInf":
+		if f, ok := args[0].(*smt.Term); ok && f.Sort.K == smt.SFP {
+			if sign, ok := asInt(args[1]); ok {
+				pos := smt.FPEq(f, smt.ConstFP(math.Inf(1)))
+				neg := smt.FPEq(f, smt.ConstFP(math.Inf(-1)))
+				switch {
+				case sign > 0:
+					return pos, true
+				case sign < 0:
+					return neg, true
+				}
+				return smt.Or(pos, neg), true
+			}
+		}
+	case "math.Floor", "math.Ceil", "math.Trunc", "math.Round", "math.RoundToEven":
+		if f, ok := args[0].(*smt.Term); ok && f.Sort.K == smt.SFP {
+			mode := map[string]int{"math.RoundToEven": 0, "math.Round": 1, "math.Ceil": 2, "math.Floor": 3, "math.Trunc": 4}[name]
+			return smt.FPRound(f, mode), true
+		}
+	case "math.Abs":
+		if f, ok := args[0].(*smt.Term); ok && f.Sort.K == smt.SFP {
+			return smt.Ite(smt.FPLt(f, smt.ConstFP(0)), smt.FPNeg(f), f), true
+		}
 	case "strconv.FormatFloat":
 		if x, ok := args[0].(XF); ok {
 			f, _ := asInt(args[1])
